@@ -173,6 +173,19 @@ def print_cases(thorough):
             yield {"entries": ents, "cmd": cmd}
 
 
+def environment_cases(thorough):
+    """the process environment: umask values (recorded permissions are applied whatever the umask), a low descriptor limit with
+    hundreds of members (nothing may stay open per member)"""
+    trees = fixed_trees()
+    for tname in ("flat", "nested", "links", "mac"):
+        for um in (0o000, 0o027, 0o077):
+            for cmd in ("xf", "xq", "xfi"):
+                yield {"entries": trees[tname], "cmd": cmd, "uid": cli.NOBODY if tname != "mac" else 0, "umask": um}
+    for c in many_cases(False):
+        d = dict(c); d["nofile"] = 24
+        yield d
+
+
 def preexisting_kind_cases(thorough):
     """objects of another kind already sitting at the output paths of link and file members: regular file, dangling link, link to a
     file inside the tree; the archive's object replaces them under the overwrite-all policies"""
@@ -241,6 +254,7 @@ def run(ctx):
     cliprop.run_space(ctx, "props.cli_c06", "print", print_cases(T), chunk=64)
     cliprop.run_space(ctx, "props.cli_c06", "many", many_cases(T), chunk=1)
     cliprop.run_space(ctx, "props.cli_c06", "times", time_cases(T), chunk=4)
+    cliprop.run_space(ctx, "props.cli_c06", "environment", environment_cases(T), chunk=2)
     cliprop.run_space(ctx, "props.cli_c06", "preexisting-kinds", preexisting_kind_cases(T), chunk=8)
     # the three library directory policies: every entry of 8 generated archives extracted through lha_reader_extract with the
     # header's own names; resulting tree compared with the member table (modes and mtimes of directories for the deferring policies)
@@ -253,7 +267,7 @@ def run(ctx):
     return ctx.finish(
         rule="'tree-shapes': ALL trees with up to 4 (thorough 5) archive entries, up to 3 children per directory, depth <= 3, node kinds {dir 0755/0555/0700, implicit dir, file 0644/0400, safe link, dangerous link}, sibling names a/ab/b, two timestamps, extracted with 'x' unprivileged; "
              "'options': 4 fixed trees (flat with lh5/lzs members, nested read-only, links, MacBinary/level-0/1 members) x every ordered option word of up to 2 (3) letters from {f,q0,q1,q2,i,w=OUT,v} x {x,e}; "
-             "'overwrite': every subset of pre-existing members x every answer string up to the number of prompts over {y,n,a,s,empty,junk,Yes,N}, plus f/q; 'wildcards': every pattern up to length 3 (4) over {a,b,*,?,/} against 100+ stored paths; 'macbinary': MacLHA members with data/resource fork lengths around multiples of 128 (envelope recognised <=> declared length is the 128-rounded sum) under xf and pq2; 'print': p/pq/pq1 over all trees of up to 3 entries; 'preexisting-kinds': a regular file, a dangling link or a link to another file already present at one or two of the output paths of link and file members, under xf and xq1; 'times': recorded times 1, 86399/86400, 2^31-2..2^31+1, 3x10^9, 2100-01-01, 2^32-2, 2^32-1 on files and directories at levels 0/1/2; 'many': 255/256/257/300 (600) sibling directories with files, plain files, safe links and dangerous links in one archive, directory chains 20 and 60 deep. "
+             "'overwrite': every subset of pre-existing members x every answer string up to the number of prompts over {y,n,a,s,empty,junk,Yes,N}, plus f/q; 'wildcards': every pattern up to length 3 (4) over {a,b,*,?,/} against 100+ stored paths; 'macbinary': MacLHA members with data/resource fork lengths around multiples of 128 (envelope recognised <=> declared length is the 128-rounded sum) under xf and pq2; 'print': p/pq/pq1 over all trees of up to 3 entries; 'environment': the four fixed trees under umask 000/027/077, the 'many' archives under a descriptor limit of 24; 'preexisting-kinds': a regular file, a dangling link or a link to another file already present at one or two of the output paths of link and file members, under xf and xq1; 'times': recorded times 1, 86399/86400, 2^31-2..2^31+1, 3x10^9, 2100-01-01, 2^32-2, 2^32-1 on files and directories at levels 0/1/2; 'many': 255/256/257/300 (600) sibling directories with files, plain files, safe links and dangerous links in one archive, directory chains 20 and 60 deep. "
              "Oracle: final tree == model tree on content, mtime, mode & 0777, link target, directory mode and mtime; stdout == banner + bytes for p. non-trivial = runs that created at least one object / printed",
         replay_fn=lambda rep: (cliprop.replay_case(rep) if rep.get('kind') == 'cli' else runner.replay_explorer(rep, quiet=True)))
 
